@@ -28,26 +28,25 @@ theorem flatten_map_nil {α β : Type} (l : List β) : (l.map fun _ => ([] : Lis
 
 def NoPre (l : List Token) : Prop := ∀ tok ∈ l, tok.pre = false
 
-/-- the cells `0 … b-1` hold no token recorded before Close -/
-def CleanBelow (cells : List (List Token)) (b : Nat) : Prop :=
-  ∀ j c, j < b → cells[j]? = some c → NoPre c
+/-- the cells whose index satisfies `P` hold no token recorded before Close (`P` = "visited by the
+winner's final pass": the visiting order is arbitrary, so this is a set, not a prefix) -/
+def CleanOn (cells : List (List Token)) (P : Nat → Prop) : Prop :=
+  ∀ j c, P j → cells[j]? = some c → NoPre c
 
-theorem CleanBelow.mono {cells : List (List Token)} {b b' : Nat} (h : CleanBelow cells b) (hb : b' ≤ b) :
-    CleanBelow cells b' := fun j c hj hc => h j c (by omega) hc
-
-theorem CleanBelow.beyond {cells : List (List Token)} {b : Nat} (h : CleanBelow cells b) (hb : cells.length ≤ b)
-    (b' : Nat) : CleanBelow cells b' := by
-  intro j c _ hc
-  have : j < cells.length := by
+theorem CleanOn.mono {cells : List (List Token)} {P Q : Nat → Prop} (h : CleanOn cells P)
+    (hq : ∀ j, j < cells.length → Q j → P j) : CleanOn cells Q := by
+  intro j c hj hc
+  have hlt : j < cells.length := by
     apply Classical.byContradiction; intro hn
     have : cells[j]? = none := List.getElem?_eq_none (by omega)
     rw [this] at hc; cases hc
-  exact h j c (by omega) hc
+  exact h j c (hq j hlt hj) hc
 
-theorem CleanBelow.zero (cells : List (List Token)) : CleanBelow cells 0 := fun _ _ hj _ => by omega
+theorem CleanOn.empty (cells : List (List Token)) {P : Nat → Prop} (hp : ∀ j, ¬ P j) : CleanOn cells P :=
+  fun j _ hj _ => absurd hj (hp j)
 
-theorem CleanBelow.set_nil {cells : List (List Token)} {b : Nat} (h : CleanBelow cells b) (i : Nat) :
-    CleanBelow (cells.set i []) b := by
+theorem CleanOn.set_nil {cells : List (List Token)} {P : Nat → Prop} (h : CleanOn cells P) (i : Nat) :
+    CleanOn (cells.set i []) P := by
   intro j c hj hc
   rw [List.getElem?_set] at hc
   split at hc
@@ -56,26 +55,33 @@ theorem CleanBelow.set_nil {cells : List (List Token)} {b : Nat} (h : CleanBelow
     · cases hc
   · exact h j c hj hc
 
-theorem CleanBelow.set_nil_succ {cells : List (List Token)} {i : Nat} (h : CleanBelow cells i) :
-    CleanBelow (cells.set i []) (i + 1) := by
+/-- the visit of cell `i` that swaps its content out -/
+theorem CleanOn.set_nil_insert {cells : List (List Token)} {i : Nat} {vis : List Nat}
+    (h : CleanOn cells (fun j => j ∈ vis)) : CleanOn (cells.set i []) (fun j => j ∈ i :: vis) := by
   intro j c hj hc
   rw [List.getElem?_set] at hc
   split at hc
   · split at hc
     · simp only [Option.some.injEq] at hc; subst hc; intro tok ht; cases ht
     · cases hc
-  · next hne => exact h j c (by omega) hc
+  · next hne =>
+    simp only [List.mem_cons] at hj
+    rcases hj with hj | hj
+    · exact absurd hj.symm hne
+    · exact h j c hj hc
 
-theorem CleanBelow.succ_of_nil {cells : List (List Token)} {i : Nat} (h : CleanBelow cells i)
-    (hi : cells[i]? = some []) : CleanBelow cells (i + 1) := by
+/-- the visit of cell `i` that finds nothing unreported -/
+theorem CleanOn.insert_of_nil {cells : List (List Token)} {i : Nat} {vis : List Nat}
+    (h : CleanOn cells (fun j => j ∈ vis)) (hi : cells[i]? = some []) : CleanOn cells (fun j => j ∈ i :: vis) := by
   intro j c hj hc
-  by_cases hji : j = i
-  · subst hji; rw [hi] at hc; simp only [Option.some.injEq] at hc; subst hc; intro tok ht; cases ht
-  · exact h j c (by omega) hc
+  simp only [List.mem_cons] at hj
+  rcases hj with hj | hj
+  · subst hj; rw [hi] at hc; simp only [Option.some.injEq] at hc; subst hc; intro tok ht; cases ht
+  · exact h j c hj hc
 
-theorem CleanBelow.set_cons {cells : List (List Token)} {b : Nat} (h : CleanBelow cells b) (i : Nat) (tok : Token)
-    (x : List Token) (hi : cells[i]? = some x) (hp : 0 < b → tok.pre = false) :
-    CleanBelow (cells.set i (tok :: x)) b := by
+theorem CleanOn.set_cons {cells : List (List Token)} {P : Nat → Prop} (h : CleanOn cells P) (i : Nat) (tok : Token)
+    (x : List Token) (hi : cells[i]? = some x) (hp : P i → tok.pre = false) :
+    CleanOn (cells.set i (tok :: x)) P := by
   intro j c hj hc
   rw [List.getElem?_set] at hc
   split at hc
@@ -86,46 +92,47 @@ theorem CleanBelow.set_cons {cells : List (List Token)} {b : Nat} (h : CleanBelo
       intro t ht
       simp only [List.mem_cons] at ht
       rcases ht with rfl | ht
-      · exact hp (by omega)
+      · exact hp hj
       · exact h i x hj hi t ht
     · cases hc
   · exact h j c hj hc
 
-theorem CleanBelow.map_nil (cells : List (List Token)) (b : Nat) : CleanBelow (cells.map fun _ => []) b := by
+theorem CleanOn.map_nil (cells : List (List Token)) (P : Nat → Prop) : CleanOn (cells.map fun _ => []) P := by
   intro j c _ hc
   simp only [List.getElem?_map, Option.map_eq_some_iff] at hc
   obtain ⟨_, _, rfl⟩ := hc
   intro tok ht; cases ht
 
-theorem CleanBelow.flatten {cells : List (List Token)} (h : CleanBelow cells cells.length) : NoPre cells.flatten := by
+theorem CleanOn.flatten {cells : List (List Token)} (h : CleanOn cells (fun _ => True)) : NoPre cells.flatten := by
   intro tok ht
   obtain ⟨c, hc, htc⟩ := List.mem_flatten.mp ht
   obtain ⟨j, hj, hjc⟩ := List.mem_iff_getElem.mp hc
-  exact h j c hj (by rw [List.getElem?_eq_getElem hj, hjc]) tok htc
+  exact h j c trivial (by rw [List.getElem?_eq_getElem hj, hjc]) tok htc
 
 /-! ## classifiers -/
 
-def PassPc.bound (K : Nat) : PassPc → Nat
-  | .begin => 0
-  | .swap i => i
-  | .deliver i _ => i + 1
-  | .flush => K
+/-- the cells a pass at this pc has visited already (`flush`: all of them) -/
+def PassPc.visited : PassPc → Nat → Prop
+  | .begin => fun _ => False
+  | .pick vis => fun j => j ∈ vis
+  | .deliver _ _ vis => fun j => j ∈ vis
+  | .flush => fun _ => True
 
-/-- how many leading cells are already free of `pre` tokens, by the winner's progress -/
-def cleanBound (K : Nat) : CPc → Nat
-  | .pass p => p.bound K
-  | .purgePc => K
-  | .reporterClose => K
-  | .returned _ => K
-  | _ => 0
+/-- which cells are already free of `pre` tokens, by the winner's progress -/
+def cleanSet : CPc → Nat → Prop
+  | .pass p => p.visited
+  | .purgePc => fun _ => True
+  | .reporterClose => fun _ => True
+  | .returned _ => fun _ => True
+  | _ => fun _ => False
 
 def optPend : Option PassPc → List Token
   | some q => q.pend
   | none => []
 
-def optBound (K : Nat) : Option PassPc → Nat
-  | some q => q.bound K
-  | none => K
+def optVisited : Option PassPc → Nat → Prop
+  | some q => q.visited
+  | none => fun _ => True
 
 def lastFlushed : List LogEv → Bool
   | .flush :: _ => true
@@ -137,75 +144,53 @@ def endsRight (closable : Bool) : List LogEv → Bool
   | .flush :: _ => !closable
   | _ => false
 
-theorem cleanBound_pos {K : Nat} {p : CPc} (h : 0 < cleanBound K p) : 3 ≤ ph p := by
-  cases p <;> simp [cleanBound, ph] at h ⊢
+theorem cleanSet_pos {p : CPc} {j : Nat} (h : cleanSet p j) : 3 ≤ ph p := by
+  cases p <;> simp [cleanSet, ph] at h ⊢
 
 /-! ## what one pass step does -/
 
-theorem passStep_cons (s : State) (p : PassPc) (tok : Token) :
-    List.count tok (delivered (passStep s p).1.log) + List.count tok (optPend (passStep s p).2)
-      + List.count tok (passStep s p).1.cells.flatten
+section
+variable {s : State} {ch : Nat} {p : PassPc} {s1 : State} {oq : Option PassPc}
+
+theorem passStep_cons (h : passStep s ch p = some (s1, oq)) (tok : Token) :
+    List.count tok (delivered s1.log) + List.count tok (optPend oq) + List.count tok s1.cells.flatten
     = List.count tok (delivered s.log) + List.count tok p.pend + List.count tok s.cells.flatten := by
-  cases p with
-  | begin => simp [passStep, delivered, optPend, PassPc.pend]
-  | swap i =>
-    simp only [passStep]
-    split
-    · simp [optPend, PassPc.pend]
-    · simp [optPend, PassPc.pend]
-    · next x c hi =>
-      have := count_flatten_set tok s.cells i (x :: c) [] hi
-      simp only [optPend, PassPc.pend, List.count_nil] at this ⊢
-      omega
-  | deliver i pend => simp [passStep, delivered, optPend, PassPc.pend, List.count_append]; omega
-  | flush => simp [passStep, delivered, optPend, PassPc.pend]
+  cases passStep_rel h with
+  | begin => simp [delivered, optPend, PassPc.pend]
+  | take vis x r hc hv hx =>
+    have := count_flatten_set tok s.cells ch (x :: r) [] hx
+    simp only [optPend, PassPc.pend, List.count_nil] at this ⊢
+    omega
+  | skip vis hc hv hx => simp [optPend, PassPc.pend]
+  | over vis hc hall => simp [optPend, PassPc.pend]
+  | deliver i pend vis => simp [delivered, optPend, PassPc.pend, List.count_append]; omega
+  | flush => simp [delivered, optPend, PassPc.pend]
 
-theorem passStep_countRC (s : State) (p : PassPc) : countRC (passStep s p).1.log = countRC s.log := by
-  cases p with
-  | begin => rfl
-  | swap i => simp only [passStep]; split <;> rfl
-  | deliver i pend => rfl
-  | flush => rfl
+theorem passStep_countRC (h : passStep s ch p = some (s1, oq)) : countRC s1.log = countRC s.log := by
+  cases passStep_rel h <;> rfl
 
-theorem passStep_flushed (s : State) (p : PassPc) (h : (passStep s p).2 = none) :
-    lastFlushed (passStep s p).1.log = true := by
-  cases p with
-  | begin => simp [passStep] at h
-  | swap i => simp only [passStep] at h; split at h <;> simp at h
-  | deliver i pend => simp [passStep] at h
-  | flush => rfl
+theorem passStep_flushed (h : passStep s ch p = some (s1, oq)) (hn : oq = none) : lastFlushed s1.log = true := by
+  cases passStep_rel h <;> first | rfl | cases hn
 
 /-- a pass of another thread never puts a `pre` token back -/
-theorem passStep_clean_frame (s : State) (p : PassPc) (b : Nat) (h : CleanBelow s.cells b) :
-    CleanBelow (passStep s p).1.cells b := by
-  cases p with
-  | begin => exact h
-  | swap i =>
-    simp only [passStep]
-    split
-    · exact h
-    · exact h
-    · exact h.set_nil i
-  | deliver i pend => exact h
-  | flush => exact h
+theorem passStep_clean_frame (h : passStep s ch p = some (s1, oq)) (P : Nat → Prop) (hcl : CleanOn s.cells P) :
+    CleanOn s1.cells P := by
+  cases passStep_rel h with
+  | take vis x r hc hv hx => exact hcl.set_nil ch
+  | _ => exact hcl
 
-/-- the winner's final pass extends the clean prefix as it walks -/
-theorem passStep_clean (s : State) (p : PassPc) (h : CleanBelow s.cells (p.bound s.cells.length)) :
-    CleanBelow (passStep s p).1.cells (optBound s.cells.length (passStep s p).2) := by
-  cases p with
-  | begin => exact CleanBelow.zero _
-  | swap i =>
-    simp only [passStep]
-    split
-    · next hi =>
-      have : s.cells.length ≤ i := by
-        apply Classical.byContradiction; intro hn
-        rw [List.getElem?_eq_getElem (by omega)] at hi; cases hi
-      exact h.beyond this _
-    · next hi => exact h.succ_of_nil hi
-    · exact h.set_nil_succ
-  | deliver i pend => exact h
-  | flush => exact h
+/-- the winner's final pass extends the clean set as it walks, whatever the visiting order -/
+theorem passStep_clean (h : passStep s ch p = some (s1, oq)) (hcl : CleanOn s.cells p.visited) :
+    CleanOn s1.cells (optVisited oq) := by
+  cases passStep_rel h with
+  | begin => exact CleanOn.empty _ (fun j hj => by simp [optVisited, PassPc.visited] at hj)
+  | take vis x r hc hv hx => exact CleanOn.set_nil_insert hcl
+  | skip vis hc hv hx => exact CleanOn.insert_of_nil hcl hx
+  | over vis hc hall => exact CleanOn.mono hcl (fun j hj _ => hall j hj)
+  | deliver i pend vis => exact hcl
+  | flush => exact hcl
+
+end
 
 /-! ## the invariant -/
 
@@ -214,7 +199,7 @@ structure Tok (s : State) : Prop where
   tail45 : ph (wpc s) = 4 ∨ ph (wpc s) = 5 → lastFlushed s.log = true
   tail6 : ph (wpc s) = 6 → endsRight s.closable s.log = true
   dropNoPre : NoPre s.dropped
-  clean : CleanBelow s.cells (cleanBound s.cells.length (wpc s))
+  clean : CleanOn s.cells (cleanSet (wpc s))
   cons : ∀ tok, List.count tok (delivered s.log) + List.count tok s.loop.pend + List.count tok (wpc s).pend
       + List.count tok s.cells.flatten + List.count tok s.dropped = List.count tok s.issued
   fresh : ∀ tok ∈ s.issued, tok.id < s.nextId
@@ -226,7 +211,7 @@ theorem tok_init (k : Nat) (hl cl : Bool) (er : Option Nat) : Tok (init k hl cl 
   · simp [init, wpc, ph]
   · simp [init, wpc, ph]
   · intro tok h; simp [init] at h
-  · simp [init, wpc, cleanBound]; exact CleanBelow.zero _
+  · exact CleanOn.empty _ (fun j hj => by simp [init, wpc, cleanSet] at hj)
   · intro tok
     have : (List.replicate k ([] : List Token)).flatten = [] := by
       induction k with
@@ -282,52 +267,54 @@ structure PassSame (s s1 : State) : Prop where
   closable : s1.closable = s.closable
   loop : s1.loop = s.loop
 
-theorem passStep_same (s : State) (p : PassPc) : PassSame s (passStep s p).1 := by
-  obtain ⟨c, l, hf⟩ := passStep_frame s p
-  rw [hf]; exact ⟨rfl, rfl, rfl, rfl, rfl, rfl, rfl⟩
+theorem passStep_same {s : State} {ch : Nat} {p : PassPc} {s1 : State} {oq : Option PassPc}
+    (h : passStep s ch p = some (s1, oq)) : PassSame s s1 := by
+  obtain ⟨c, l, rfl⟩ := passStep_frame h
+  exact ⟨rfl, rfl, rfl, rfl, rfl, rfl, rfl⟩
 
 /-- a step of a periodic pass (the loop has not exited, so the winner — if any — is still before its wait) -/
-theorem Tok.loop_pass {s : State} (h : Ctl s) (h2 : Tok s) (p : PassPc) (hl : s.loop = .pass p) (lp : LoopPc)
-    (hlp : lp.pend = optPend (passStep s p).2) : Tok { (passStep s p).1 with loop := lp } := by
-  have hsame := passStep_same s p
-  have hw : wpc { (passStep s p).1 with loop := lp } = wpc s := wpc_eq hsame.winner hsame.closers
+theorem Tok.loop_pass {s : State} (h : Ctl s) (h2 : Tok s) {ch : Nat} {p : PassPc} {s1 : State} {oq : Option PassPc}
+    (hl : s.loop = .pass p) (hp : passStep s ch p = some (s1, oq)) (lp : LoopPc)
+    (hlp : lp.pend = optPend oq) : Tok { s1 with loop := lp } := by
+  have hsame := passStep_same hp
+  have hw : wpc { s1 with loop := lp } = wpc s := wpc_eq hsame.winner hsame.closers
   have hph : ph (wpc s) < 3 := by
     apply Classical.byContradiction; intro hn
     have := h.loopEx (by omega); rw [hl] at this; cases this
   refine ⟨?_, ?_, ?_, ?_, ?_, ?_, ?_, ?_⟩
   · rw [hw]
-    show countRC (passStep s p).1.log = _
-    rw [passStep_countRC, h2.rc]
+    show countRC s1.log = _
+    rw [passStep_countRC hp, h2.rc]
     have : ¬ (ph (wpc s) = 6) := by omega
     simp [this]
   · rw [hw]; intro h45; omega
   · rw [hw]; intro h6; omega
-  · show NoPre (passStep s p).1.dropped
+  · show NoPre s1.dropped
     rw [hsame.dropped]; exact h2.dropNoPre
   · rw [hw]
     intro j c hj _
-    have := cleanBound_pos (Nat.lt_of_le_of_lt (Nat.zero_le _) hj); omega
+    have := cleanSet_pos hj; omega
   · intro tok
     rw [hw]
-    show List.count tok (delivered (passStep s p).1.log) + List.count tok lp.pend + List.count tok (wpc s).pend
-      + List.count tok (passStep s p).1.cells.flatten + List.count tok (passStep s p).1.dropped
-      = List.count tok (passStep s p).1.issued
+    show List.count tok (delivered s1.log) + List.count tok lp.pend + List.count tok (wpc s).pend
+      + List.count tok s1.cells.flatten + List.count tok s1.dropped
+      = List.count tok s1.issued
     have h1 := h2.cons tok
-    have h3 := passStep_cons s p tok
+    have h3 := passStep_cons hp tok
     rw [hl] at h1
     simp only [LoopPc.pend] at h1
     rw [hlp, hsame.dropped, hsame.issued]
     omega
-  · show ∀ tok ∈ (passStep s p).1.issued, tok.id < (passStep s p).1.nextId
+  · show ∀ tok ∈ s1.issued, tok.id < s1.nextId
     rw [hsame.issued, hsame.nextId]; exact h2.fresh
-  · show (passStep s p).1.issued.Nodup
+  · show s1.issued.Nodup
     rw [hsame.issued]; exact h2.nodup
 
 /-- the winner moves between pcs before its final pass -/
 theorem Tok.wmove {s s' : State} (h : Tok s) (hlog : s'.log = s.log) (hc : s'.cells = s.cells) (hd : s'.dropped = s.dropped)
     (hi : s'.issued = s.issued) (hn : s'.nextId = s.nextId) (hp : s'.loop.pend = s.loop.pend)
     (hpend : (wpc s').pend = (wpc s).pend) (hph : ph (wpc s') < 4) (hph0 : ph (wpc s) < 6)
-    (hb : cleanBound s.cells.length (wpc s') = 0) : Tok s' := by
+    (hb : ∀ j, ¬ cleanSet (wpc s') j) : Tok s' := by
   refine ⟨?_, ?_, ?_, ?_, ?_, ?_, ?_, ?_⟩
   · rw [hlog, h.rc]
     have a : ¬ (ph (wpc s) = 6) := by omega
@@ -336,55 +323,57 @@ theorem Tok.wmove {s s' : State} (h : Tok s) (hlog : s'.log = s.log) (hc : s'.ce
   · intro h45; omega
   · intro h6; omega
   · rw [hd]; exact h.dropNoPre
-  · rw [hc, hb]; exact CleanBelow.zero _
+  · exact CleanOn.empty _ hb
   · rw [hpend, hlog, hc, hd, hi, hp]; exact h.cons
   · rw [hi, hn]; exact h.fresh
   · rw [hi]; exact h.nodup
 
 /-- a step of the winner's final pass -/
-theorem Tok.final_pass {s : State} (h : Ctl s) (h2 : Tok s) (t : Nat) (p : PassPc) (hw : s.winner = some t)
-    (hpc : s.closers t = .pass p) (p' : CPc) (hpend : p'.pend = optPend (passStep s p).2)
-    (hph : ph p' = 3 ∨ (ph p' = 4 ∧ (passStep s p).2 = none))
-    (hb : cleanBound s.cells.length p' = optBound s.cells.length (passStep s p).2) :
-    Tok (setC (passStep s p).1 t p') := by
-  have hsame := passStep_same s p
+theorem Tok.final_pass {s : State} (h : Ctl s) (h2 : Tok s) (t : Nat) {ch : Nat} {p : PassPc} {s1 : State}
+    {oq : Option PassPc} (hw : s.winner = some t)
+    (hpc : s.closers t = .pass p) (hp : passStep s ch p = some (s1, oq)) (p' : CPc) (hpend : p'.pend = optPend oq)
+    (hph : ph p' = 3 ∨ (ph p' = 4 ∧ oq = none))
+    (hb : cleanSet p' = optVisited oq) :
+    Tok (setC s1 t p') := by
+  have hsame := passStep_same hp
   have hw0 : wpc s = .pass p := by rw [wpc_of_winner hw, hpc]
-  have hw1 : wpc (setC (passStep s p).1 t p') = p' := by simp [wpc, setC, hsame.winner, hw]
+  have hw1 : wpc (setC s1 t p') = p' := by simp [wpc, setC, hsame.winner, hw]
   have hex : s.loop = .exited := h.loopEx (by rw [hw0]; simp [ph])
   refine ⟨?_, ?_, ?_, ?_, ?_, ?_, ?_, ?_⟩
   · rw [hw1]
-    show countRC (passStep s p).1.log = _
-    rw [passStep_countRC, h2.rc, hw0]
+    show countRC s1.log = _
+    rw [passStep_countRC hp, h2.rc, hw0]
     have a : ¬ (ph (CPc.pass p) = 6) := by simp [ph]
     have b : ¬ (ph p' = 6) := by omega
     rw [if_neg (fun hh => a hh.1), if_neg (fun hh => b hh.1)]
   · rw [hw1]; intro h45
     rcases hph with h3 | ⟨_, hn⟩
     · omega
-    · exact passStep_flushed s p hn
+    · show lastFlushed s1.log = true
+      exact passStep_flushed hp hn
   · rw [hw1]; intro h6; omega
-  · show NoPre (passStep s p).1.dropped
+  · show NoPre s1.dropped
     rw [hsame.dropped]; exact h2.dropNoPre
   · rw [hw1]
-    show CleanBelow (passStep s p).1.cells (cleanBound (passStep s p).1.cells.length p')
-    rw [passStep_length, hb]
-    apply passStep_clean
+    show CleanOn s1.cells (cleanSet p')
+    rw [hb]
+    apply passStep_clean hp
     have := h2.clean; rw [hw0] at this; exact this
   · intro tok
     rw [hw1]
-    show List.count tok (delivered (passStep s p).1.log) + List.count tok (passStep s p).1.loop.pend
+    show List.count tok (delivered s1.log) + List.count tok s1.loop.pend
       + List.count tok p'.pend
-      + List.count tok (passStep s p).1.cells.flatten + List.count tok (passStep s p).1.dropped
-      = List.count tok (passStep s p).1.issued
+      + List.count tok s1.cells.flatten + List.count tok s1.dropped
+      = List.count tok s1.issued
     have h1 := h2.cons tok
-    have h3 := passStep_cons s p tok
+    have h3 := passStep_cons hp tok
     rw [hw0] at h1
     simp only [CPc.pend] at h1
     rw [hpend, hsame.dropped, hsame.issued, hsame.loop]
     omega
-  · show ∀ tok ∈ (passStep s p).1.issued, tok.id < (passStep s p).1.nextId
+  · show ∀ tok ∈ s1.issued, tok.id < s1.nextId
     rw [hsame.issued, hsame.nextId]; exact h2.fresh
-  · show (passStep s p).1.issued.Nodup
+  · show s1.issued.Nodup
     rw [hsame.issued]; exact h2.nodup
 
 theorem tok_step (s s' : State) (e : Ev) (h : Ctl s) (h2 : Tok s) (hs : step s e = some s') : Tok s' := by
@@ -415,10 +404,9 @@ theorem tok_step (s s' : State) (e : Ev) (h : Ctl s) (h2 : Tok s) (hs : step s e
       · next hpg =>
         refine ⟨h2.rc, h2.tail45, h2.tail6, h2.dropNoPre, ?_, ?_, fresh_cons _ rfl h2.fresh,
           nodup_cons_fresh _ rfl h2.fresh h2.nodup⟩
-        · simp only [List.length_set]
-          refine h2.clean.set_cons c _ x hx ?_
+        · refine h2.clean.set_cons c _ x hx ?_
           intro hpos
-          have := h.closed_of_ph (by have := cleanBound_pos hpos; omega)
+          have := h.closed_of_ph (by have := cleanSet_pos hpos; omega)
           simp [this]
         · intro tok
           have h1 := h2.cons tok
@@ -452,7 +440,7 @@ theorem tok_step (s s' : State) (e : Ev) (h : Ctl s) (h2 : Tok s) (hs : step s e
         exact h2.frame rfl rfl rfl rfl rfl rfl rfl (by simp [hl, LoopPc.pend])
       · cases hs
     · cases hs
-  | loop =>
+  | loop ch =>
     simp only [step] at hs
     split at hs
     · next hl =>
@@ -463,18 +451,13 @@ theorem tok_step (s s' : State) (e : Ev) (h : Ctl s) (h2 : Tok s) (hs : step s e
       split at hs
       · next s1 q hp =>
         simp only [Option.some.injEq] at hs; subst hs
-        have e1 : s1 = (passStep s p).1 := by rw [hp]
-        have e2 : (passStep s p).2 = some q := by rw [hp]
-        subst e1
-        exact Tok.loop_pass h h2 p hl (.pass q) (by rw [e2]; rfl)
+        exact Tok.loop_pass h h2 hl hp (.pass q) rfl
       · next s1 hp =>
         simp only [Option.some.injEq] at hs; subst hs
-        have e1 : s1 = (passStep s p).1 := by rw [hp]
-        have e2 : (passStep s p).2 = none := by rw [hp]
-        subst e1
-        exact Tok.loop_pass h h2 p hl .waiting (by rw [e2]; rfl)
+        exact Tok.loop_pass h h2 hl hp .waiting rfl
+      · cases hs
     · cases hs
-  | closer t =>
+  | closer t ch =>
     simp only [step] at hs
     split at hs
     · next hpc =>
@@ -491,14 +474,14 @@ theorem tok_step (s s' : State) (e : Ev) (h : Ctl s) (h2 : Tok s) (hs : step s e
         have hw0 : wpc s = .start := by simp [wpc, hwn]
         have hw1 : wpc { setC s t .won with closed := true, winner := some t } = .won := by simp [wpc, setC]
         exact h2.wmove rfl rfl rfl rfl rfl rfl (by rw [hw0, hw1]; rfl) (by rw [hw1]; simp [ph])
-          (by rw [hw0]; simp [ph]) (by rw [hw1]; rfl)
+          (by rw [hw0]; simp [ph]) (by rw [hw1]; exact fun _ hj => hj)
     · next hpc =>
       have hw := h.winner_of t (by rw [hpc]; simp [ph])
       simp only [Option.some.injEq] at hs; subst hs
       have hw0 : wpc s = .won := by rw [wpc_of_winner hw, hpc]
       have hw1 : wpc { setC s t .doneClosedPc with doneClosed := true } = .doneClosedPc := by simp [wpc, setC, hw]
       exact h2.wmove rfl rfl rfl rfl rfl rfl (by rw [hw0, hw1]; rfl) (by rw [hw1]; simp [ph])
-        (by rw [hw0]; simp [ph]) (by rw [hw1]; rfl)
+        (by rw [hw0]; simp [ph]) (by rw [hw1]; exact fun _ hj => hj)
     · next hpc =>
       have hw := h.winner_of t (by rw [hpc]; simp [ph])
       split at hs
@@ -506,30 +489,25 @@ theorem tok_step (s s' : State) (e : Ev) (h : Ctl s) (h2 : Tok s) (hs : step s e
         have hw0 : wpc s = .doneClosedPc := by rw [wpc_of_winner hw, hpc]
         have hw1 : wpc (setC s t (.pass .begin)) = .pass .begin := by simp [wpc, setC, hw]
         exact h2.wmove rfl rfl rfl rfl rfl rfl (by rw [hw0, hw1]; rfl) (by rw [hw1]; simp [ph])
-          (by rw [hw0]; simp [ph]) (by rw [hw1]; rfl)
+          (by rw [hw0]; simp [ph]) (by rw [hw1]; exact fun _ hj => hj)
       · cases hs
     · next p hpc =>
       have hw := h.winner_of t (by rw [hpc]; simp [ph])
       split at hs
       · next s1 q hp =>
         simp only [Option.some.injEq] at hs; subst hs
-        have e1 : s1 = (passStep s p).1 := by rw [hp]
-        have e2 : (passStep s p).2 = some q := by rw [hp]
-        subst e1
-        exact Tok.final_pass h h2 t p hw hpc (.pass q) (by rw [e2]; rfl) (Or.inl rfl) (by rw [e2]; rfl)
+        exact Tok.final_pass h h2 t hw hpc hp (.pass q) rfl (Or.inl rfl) rfl
       · next s1 hp =>
         simp only [Option.some.injEq] at hs; subst hs
-        have e1 : s1 = (passStep s p).1 := by rw [hp]
-        have e2 : (passStep s p).2 = none := by rw [hp]
-        subst e1
-        exact Tok.final_pass h h2 t p hw hpc .purgePc (by rw [e2]; rfl) (Or.inr ⟨rfl, e2⟩) (by rw [e2]; rfl)
+        exact Tok.final_pass h h2 t hw hpc hp .purgePc rfl (Or.inr ⟨rfl, rfl⟩) rfl
+      · cases hs
     · next hpc =>
       have hw := h.winner_of t (by rw [hpc]; simp [ph])
       simp only [Option.some.injEq] at hs; subst hs
       have hw0 : wpc s = .purgePc := by rw [wpc_of_winner hw, hpc]
       have hw1 : wpc (setC (purgeAll s) t .reporterClose) = .reporterClose := by simp [wpc, setC, purgeAll, hw]
       have hex : s.loop = .exited := h.loopEx (by rw [hw0]; simp [ph])
-      have hclean := h2.clean; rw [hw0] at hclean; simp only [cleanBound] at hclean
+      have hclean := h2.clean; rw [hw0] at hclean
       refine ⟨?_, ?_, ?_, ?_, ?_, ?_, h2.fresh, h2.nodup⟩
       · rw [hw1]; have := h2.rc; rw [hw0] at this; simp [ph] at this ⊢; exact this
       · intro _; exact h2.tail45 (by rw [hw0]; simp [ph])
@@ -539,7 +517,7 @@ theorem tok_step (s s' : State) (e : Ev) (h : Ctl s) (h2 : Tok s) (hs : step s e
         rcases List.mem_append.mp ht with ht | ht
         · exact hclean.flatten tok ht
         · exact h2.dropNoPre tok ht
-      · exact CleanBelow.map_nil _ _
+      · exact CleanOn.map_nil _ _
       · intro tok
         rw [hw1]
         show List.count tok (delivered s.log) + List.count tok s.loop.pend + List.count tok CPc.reporterClose.pend
